@@ -213,7 +213,10 @@ def decision_cases(ctx):
     # environment URL forms
     for v in ["http://px", "http://px:3128", "http://px:0", "http://u:p@px:1", "http://u@px:1", "http://u:@px:1",
               "http://:p@px:1", "http://PX:1/", "http://[::1]:8", "//px:1", "px:3128", "http://px:x", " http://px : 1 ",
-              "http://px:65535", "http://px:65536", "https://px:1/path?q", "http://u:p:q@px:1", "http://a@b@px:1"]:
+              "http://px:65535", "http://px:65536", "https://px:1/path?q", "http://u:p:q@px:1", "http://a@b@px:1",
+              # percent-encoded reserved characters in the credentials (RFC 3986 3.2.1): decoded AFTER the URL is split
+              "http://svc%2Fws:p%23ss%3Fx@px:3128/", "http://u%40corp:p%3Aq@px:1", "http://a%2fb:c@px:8080", "http://user:%2F%2Fx@px:1",
+              "http://u%25:p%25@px:1", "http://%41b:%63d@px:2"]:
         for sec in (False, True):
             cases.append(("a.b", sec, None, 0, None, None, {("https_proxy" if sec else "http_proxy"): v}))
     return cases
@@ -297,20 +300,44 @@ def run_decision(ctx, cases=None):
     ctx.traces_vs_impl += len(cases)
 
 
+_UI = r"(?:[A-Za-z0-9._~-]|%[0-9A-Fa-f]{2})"
+
+
 def well_formed_proxy_url(v):
     import re
-    return re.fullmatch(r"https?://([A-Za-z0-9._~-]+(:[A-Za-z0-9._~-]*)?@)?[A-Za-z0-9.-]+(:[0-9]{1,5})?/?", v) is not None
+    return re.fullmatch(r"https?://(" + _UI + r"+(:" + _UI + r"*)?@)?[A-Za-z0-9.-]+(:[0-9]{1,5})?/?", v) is not None
+
+
+def _pct_decode(t):
+    """RFC 3986 percent-decoding of one userinfo field (ASCII results only: otherwise None)."""
+    out, i = [], 0
+    while i < len(t):
+        if t[i] == "%":
+            b = int(t[i + 1:i + 3], 16)
+            if b >= 0x80:
+                return None
+            out.append(chr(b))
+            i += 3
+        else:
+            out.append(t[i])
+            i += 1
+    return "".join(out)
 
 
 def expected_env_choice(v):
-    """independent reading of scheme://[user[:pass]@]host[:port][/]"""
+    """independent reading of scheme://[user[:pass]@]host[:port][/] — the URL is split first, the userinfo fields are
+    percent-decoded afterwards"""
     import re
-    m = re.fullmatch(r"https?://(?:([A-Za-z0-9._~-]+)(?::([A-Za-z0-9._~-]*))?@)?([A-Za-z0-9.-]+)(?::([0-9]{1,5}))?/?", v)
+    m = re.fullmatch(r"https?://(?:(" + _UI + r"+)(?::(" + _UI + r"*))?@)?([A-Za-z0-9.-]+)(?::([0-9]{1,5}))?/?", v)
     if not m:
         return None
     u, p, h, port = m.groups()
     if port is not None and int(port) > 65535:
         return None
+    if u is not None:
+        u, p = _pct_decode(u), _pct_decode(p or "")
+        if u is None or p is None:
+            return None
     a = "!" if u is None else f"{hx(u)}:{hx(p or '')}"
     return f"{hx(h.lower())} {'!' if port is None else int(port)} {a}"
 
@@ -658,7 +685,7 @@ def run_inputs(ctx, inputs):
 def run(ctx):
     ctx.assumptions = [
         "C19: socket.inet_aton is modelled on canonical dotted quads and on strings glibc certainly refuses (Py.inetModelled); legacy forms (1.2.3, hex, octal) are neither generated nor judged",
-        "C19: int() on ASCII digit strings only; urlparse of the environment value = Model.Url.urlsplit on the URL alphabet; unquote = identity (no '%' in credentials)",
+        "C19: int() on ASCII digit strings only; urlparse of the environment value = Model.Url.urlsplit on the URL alphabet; unquote = Model.Proxy.unquote (escapes in the credentials that decode to ASCII; others are answered `unmodelled` and judged by the independent reading only)",
         "C19: Spec readings: CIDR blocks are strict (no host bits set); an address literal belongs to no domain; comparisons are case-sensitive; IPv6 origins in CONNECT are outside the property's quantifier",
         "C19: the proxy's reply is read from a scripted socket; TLS is one opaque event carrying server_hostname",
     ]
